@@ -361,8 +361,24 @@ Definition same_dtype (n : num) : num := n.
 Definition ufunc_scalar (name : string) : option ufunc :=
   if String.eqb name "add" then Some {| uf_cast := same_dtype; uf_op := n_add |} else
   if String.eqb name "subtract" then Some {| uf_cast := same_dtype; uf_op := n_sub |} else
-  if String.eqb name "multiply" then Some {| uf_cast := same_dtype; uf_op := n_mul |} else
-  if String.eqb name "divide" then Some {| uf_cast := cast_real; uf_op := n_div |} else None.
+  if String.eqb name "multiply" then Some {| uf_cast := same_dtype; uf_op := n_mul |} else None.
+
+(* Divide: a%0 is :undefined when both operands are atoms and the divisor is a zero number *)
+Definition E_UNDEF : Z := 97.
+Definition is_zero_num (n : num) : bool :=
+  match n with NI z => Z.eqb z 0 | NR f => SFeqb f (S754_zero false) end.
+Definition is_zero_scalar (v : val) : bool :=
+  match num_of v with Some m => is_zero_num m | None => false end.
+Definition klong_div (a b : val) : res val :=
+  if negb (is_list a) && is_zero_scalar b then Err E_UNDEF else ew2 n_div a b.
+
+(* `_has_zero_divisor(a)`: a flat array with a zero among a2..aN (object arrays holding lists: not modelled) *)
+Definition zero_divisor (xs : list val) : bool :=
+  match classify xs with
+  | NumVec ns => existsb is_zero_num (tl ns)
+  | NumMat _ _ => false
+  | Other => if existsb is_list xs then false else existsb is_zero_scalar (tl xs)
+  end.
 
 (* the scalar function of a Klong operator verb on numbers *)
 Definition klong_scalar (op : string) : option (num -> num -> num) :=
@@ -379,7 +395,8 @@ Definition klong_scalar (op : string) : option (num -> num -> num) :=
      "min:ndim1:nonobj"        return np.min(a)   when a.ndim == 1 and a.dtype != 'O'
      "max:ndim1:nonobj"        return np.max(a)   when a.ndim == 1 and a.dtype != 'O'
      "concat:nonobj"           return a if a.ndim == 1 else np.concatenate(a, axis=0)   when isarray(a) and a.dtype != 'O'
-     "accumulate:<ufunc>"      return np.<ufunc>.accumulate(a) *)
+     "accumulate:<ufunc>"      return np.<ufunc>.accumulate(a)
+     "...:divide:nozerodiv"    the divide entries carry the guard `not _has_zero_divisor(a)` *)
 Definition table := list (string * string).
 
 Fixpoint lookup (k : string) (t : table) : option string :=
@@ -401,6 +418,10 @@ Definition over_shortcut (t : table) (op : option string) (xs : list val) : opti
       | Some act =>
           match after "reduce:" act with
           | Some uf =>
+              if String.eqb uf "divide:nozerodiv" then
+                (if zero_divisor xs then None
+                 else Some (np_reduce {| uf_cast := cast_real; uf_op := n_div |} xs))
+              else
               match ufunc_scalar uf with
               | Some u => Some (np_reduce u xs)
               | None => Some (Err E_UNMODELLED)
@@ -430,6 +451,10 @@ Definition scan_shortcut (t : table) (op : option string) (xs : list val) : opti
       | Some act =>
           match after "accumulate:" act with
           | Some uf =>
+              if String.eqb uf "divide:nozerodiv" then
+                (if zero_divisor xs then None
+                 else Some (np_accumulate {| uf_cast := cast_real; uf_op := n_div |} xs))
+              else
               match ufunc_scalar uf with
               | Some u => Some (np_accumulate u xs)
               | None => Some (Err E_UNMODELLED)
@@ -533,16 +558,24 @@ Section Adverbs.
     | _ => f a
     end.
 
+  (* kg_asarray([i, x]): beside a real the index becomes a real (NumPy homogenises the pair) *)
+  Definition pair_val (i : Z) (x : val) : val :=
+    match x with VReal _ => VList [VReal (of_Z i); x] | _ => VList [VInt i; x] end.
+
   (* eval_adverb_each_index *)
   Definition m_each_index (f : val -> M val) (a : val) : M val :=
     if is_empty a then ret a
     else if is_iterable a then
-      bind (for_enum (fun i x => f (VList [VInt i; x])) 0 (items a) []) (fun r => ret (VList r))
-    else f (VList [VInt 0; a]).
+      bind (for_enum (fun i x => f (pair_val i x)) 0 (items a) []) (fun r => ret (VList r))
+    else f (pair_val 0 a).
 
   (* zip() iterates a str; a KGChar is a str of one character *)
   Definition seq_of (a : val) : option (list val) :=
-    match a with VStr s => Some (chars s) | VChar c => Some [VChar c] | VList l => Some l | _ => None end.
+    match a with
+    | VStr s => Some (chars s) | VChar c => Some [VChar c] | VList l => Some l
+    | VDict kvs => Some (map fst kvs)          (* zip() of a dict iterates its keys *)
+    | _ => None
+    end.
 
   (* eval_adverb_each2 *)
   Definition m_each2 (f : val -> val -> M val) (a b : val) : M val :=
@@ -798,10 +831,10 @@ Fixpoint get_adverb_arity (t : list (string * option nat)) (s : string) (ctx : n
 
 (* the shortcut tables the proofs are about *)
 Definition over_table_model : table :=
-  [ ("%", "reduce:divide"); ("&", "min:ndim1:nonobj"); ("*", "reduce:multiply"); ("+", "reduce:add");
+  [ ("%", "reduce:divide:nozerodiv"); ("&", "min:ndim1:nonobj"); ("*", "reduce:multiply"); ("+", "reduce:add");
     (",", "concat:nonobj"); ("-", "reduce:subtract"); ("|", "max:ndim1:nonobj") ].
 Definition scan_table_model : table :=
-  [ ("%", "accumulate:divide"); ("*", "accumulate:multiply"); ("+", "accumulate:add"); ("-", "accumulate:subtract") ].
+  [ ("%", "accumulate:divide:nozerodiv"); ("*", "accumulate:multiply"); ("+", "accumulate:add"); ("-", "accumulate:subtract") ].
 
 (* get_adverb_fn: symbol -> (function for arity 2, function for arity 1), as adverb2 / adverb1 dispatch *)
 Definition adverb_fn_model : list (string * (string * string)) :=
@@ -816,3 +849,6 @@ Definition adverb_fn_model : list (string * (string * string)) :=
     ("\", ("eval_adverb_scan_over_neutral", "eval_adverb_scan_over"));
     ("\*", ("eval_adverb_scan_iterating", "eval_adverb_scan_iterating"));
     ("\~", ("eval_adverb_scan_while", "eval_adverb_scan_converging")) ].
+
+(* the source text of the guard that zero_divisor models *)
+Definition zero_divisor_guard_model : string := "a.ndim == 1 and bool((a[1:] == 0).any())".
